@@ -28,6 +28,11 @@ E :: enum
 end
 id :: fn v: int -> int do ret v end
 pair :: fn a: int, b: int -> int do ret a * 1000 + b end
+g :: fn h: fn int -> int, m: int -> int do
+    if m < 1 do ret 2 end
+    ret (if m > 1 do 7 else 9 end) + h(m - 1)
+end
+via :: fn h: fn int -> int, m: int -> int do ret h(m) end
 f :: fn n: int -> int do
     if n < 1 do ret 1 end
     ret BODY
@@ -252,13 +257,23 @@ def templates(seed, tier):
     out = [t for t in templates_core.CATALOGUE if "reent" in t["tags"] or t["name"] in ("closure_counter", "closure_shared", "loop_fresh_local", "recursion_fact", "nested_fn_scope", "blob_self")]
     combos = [(c, h) for c in CONTEXTS for h in HELD]
     rnd = random.Random(seed)
-    if tier == "quick":
-        rnd.shuffle(combos); combos = combos[:30]
     for (cn, ctx), (hn, held) in combos:
         for K in ((1,) if tier == "quick" else (1, 2, 3)):
             body = ctx.replace("X", held.replace("K", str(K))).replace("R", "f(n - 1)")
             out.append({"name": "ctx_%s_%s_%d" % (cn, hn, K), "role": "value-held-across-recursive-call(%s in %s)" % (hn, cn),
                         "text": PROGRAM.replace("BODY", body), "dom": {"a": (0, 3)}})
+    # the re-entering call is not a plain self call: mutual recursion (through a function that is handed `f`; two global functions that
+    # name each other are a 'Dependency cycle' in this language), through a closure made in this activation, through a
+    # higher-order function that is handed `f`, two re-entering calls in one expression
+    routes = [("mutual", "g(f, n)"), ("closure", "(fn -> int do ret f(n - 1) end)()"), ("higher_order", "via(f, n - 1)"), ("binary", "(f(n - 1) + f(n - 2))"),
+              ("closure_arg", "via(fn k: int -> int do ret f(k) + n end, n - 1)")]
+    rc = [(c, h, r) for c in CONTEXTS for h in HELD for r in routes]
+    if tier == "quick":
+        rnd.shuffle(rc); rc = rc[:200]
+    for (cn, ctx), (hn, held), (rn, route) in rc:
+        body = ctx.replace("X", held.replace("K", "1")).replace("R", route)
+        out.append({"name": "ctx_%s_%s_via_%s" % (cn, hn, rn), "role": "value-held-across-recursive-call(%s in %s, re-entered through %s)" % (hn, cn, rn),
+                    "text": PROGRAM.replace("BODY", body), "dom": {"a": (0, 3)}})
     for name, text, dom in CLOSURES:
         out.append({"name": name, "role": name, "text": text, "dom": dom})
     # large activations: functions whose emitted Lua comes close to Lua's 200-locals limit (K = 94 filler definitions is the largest that
